@@ -42,4 +42,6 @@ MUTANTS = [
     m("c20-twin-cmp-swapped", None, "            return self.log_val >= other.log_val\n        return self.val >= other", "            return other.log_val <= self.log_val\n        return other <= self.val", twin=True),
     m("c20-lse-no-max-factoring", "R1", "    if val1 == -inf and val2 == -inf:\n        return -inf\n    if val1 > val2:\n        return val1 + log1p_exp(val2 - val1)\n    return val2 + log1p_exp(val1 - val2)", "    if val1 == -inf:\n        return val2\n    return val1 + log1p_exp(val2 - val1)", key="correction-argument-positive"),
     m("c20-twin-lse-ge", None, "    if val1 > val2:\n        return val1 + log1p_exp(val2 - val1)\n    return val2 + log1p_exp(val1 - val2)", "    if val1 >= val2:\n        return val1 + log1p_exp(val2 - val1)\n    return val2 + log1p_exp(val1 - val2)", twin=True),
+    m("c20-mul-linearised", "R2", "            return LogRepFloat(log_val=self.log_val + other.log_val)", "            return exp(self.log_val + other.log_val)"),
+    m("c20-twin-div-named", None, "            return LogRepFloat(log_val=self.log_val - other.log_val)", "            log_ratio = self.log_val - other.log_val\n            return LogRepFloat(log_val=log_ratio)", twin=True),
 ]
